@@ -1642,6 +1642,35 @@ where
         &mut self.cells
     }
 
+    /// Verification hook (`--cfg delaunay_verif` only): insert a second cell with the same vertex
+    /// slots as `cell_key` directly into storage, bypassing duplicate detection (fault injection).
+    #[cfg(delaunay_verif)]
+    pub fn verif_insert_duplicate_cell(&mut self, cell_key: CellKey) -> Option<CellKey> {
+        let vertices: Vec<VertexKey> = self.cells.get(cell_key)?.vertices().to_vec();
+        let cell = Cell::new(vertices, None).ok()?;
+        let uuid = cell.uuid();
+        let key = self.cells.insert(cell);
+        self.uuid_to_cell_key.insert(uuid, key);
+        self.bump_generation();
+        Some(key)
+    }
+
+    /// Verification hook (`--cfg delaunay_verif` only): drop the UUID-to-key entry of a vertex
+    /// while keeping the vertex (fault injection: mapping desynchronisation).
+    #[cfg(delaunay_verif)]
+    pub fn verif_unmap_vertex_uuid(&mut self, vertex_key: VertexKey) -> bool {
+        let Some(uuid) = self.vertices.get(vertex_key).map(Vertex::uuid) else {
+            return false;
+        };
+        self.uuid_to_vertex_key.remove(&uuid).is_some()
+    }
+
+    /// Verification hook (`--cfg delaunay_verif` only): add a vertex that belongs to no cell.
+    #[cfg(delaunay_verif)]
+    pub fn verif_insert_isolated_vertex(&mut self, vertex: Vertex<T, U, D>) -> Option<VertexKey> {
+        self.insert_vertex_with_mapping(vertex).ok()
+    }
+
     /// Atomically inserts a vertex and creates the UUID-to-key mapping.
     ///
     /// This method ensures that both the vertex insertion and UUID mapping are
